@@ -27,7 +27,7 @@ CHECKS = {
               "envelope delivery optionally released one at a time by a drawn tape. Oracle (history invariant): handler-received == caller-sent up to where the handler stopped reading, io.EOF exactly after half-close, "
               "caller-received == handler-sent complete and in order, terminal receive is io.EOF iff the handler returned nil, repeated receives after the end never yield data. "
               "Non-trivial = envelopes of >=2 calls interleaved on one connection, or >=11 messages one way, or separate sender/receiver goroutines; distinct = canonical case JSON hash."),
-        jobs=[dict(test="TestC02", quick=4800, thorough=40000), dict(test="TestC02Race", quick=200, thorough=2000, shards=4), dict(test="FuzzC02", kind="fuzz", quick=0, thorough=90)],
+        jobs=[dict(test="TestC02", quick=4800, thorough=40000), dict(test="TestC02Race", quick=200, thorough=2000, shards=4), dict(test="FuzzC02", kind="fuzz", quick=0, thorough=90), dict(test="TestC02Fault", quick=300, thorough=3000, shards=4)],
         floors={"TestC02:interleaved=true": 0.2, "TestC02:concurrent=true": 0.1, "TestC02:msgs>=11": 0.05, "TestC02:kind=client": 0.1, "TestC02:kind=server": 0.1, "TestC02:kind=bidi": 0.2, "TestC02:arm_end=true": 0.1},
         assumptions=COMMON_ASSUMPTIONS,
     ),
@@ -48,7 +48,7 @@ CHECKS = {
               "handlers calling SetHeader 0..3 times, optional SendHeader, headers leaving with first message or with the status, late SetHeader, SetTrailer 0..3 times, grpc.SetHeader/SendHeader/SetTrailer in unary handlers, trailers with error returns. "
               "Oracle model.MD (independent join/lower-case/base64 implementation): handler's incoming metadata, Header(), Trailer(), unary InHeader (recording stats handler) and the tap (decoded by the model) all equal the model; response metadata only on the first response envelope. "
               "Non-trivial = a -bin value with NUL or non-UTF-8 bytes, or a key with >=2 values, or >=2 set calls; distinct = canonical case hash."),
-        jobs=[dict(test="TestC04", quick=4800, thorough=50000), dict(test="TestC04Foreign", quick=800, thorough=10000, shards=4), dict(test="FuzzC04", kind="fuzz", quick=0, thorough=90)],
+        jobs=[dict(test="TestC04", quick=4800, thorough=50000), dict(test="TestC04Foreign", quick=800, thorough=10000, shards=4), dict(test="FuzzC04", kind="fuzz", quick=0, thorough=90), dict(test="TestC04Conc", quick=300, thorough=3000, shards=4)],
         floors={"TestC04:md-nontrivial": 0.3, "TestC04:hdr-via=sendheader": 0.03, "TestC04:hdr-via=first-message": 0.05, "TestC04:hdr-via=with-trailer": 0.05, "TestC04:unary": 0.1},
         assumptions=COMMON_ASSUMPTIONS,
     ),
@@ -72,7 +72,7 @@ CHECKS = {
         jobs=[dict(test="TestC08Grid", kind="enum", quick=1, thorough=1, shards=1),
               dict(test="TestC08Strings", quick=24000, thorough=1000000),
               dict(test="TestC08E2E", quick=1600, thorough=60000),
-              dict(test="FuzzC08", kind="fuzz", quick=0, thorough=180)],
+              dict(test="FuzzC08", kind="fuzz", quick=0, thorough=180), dict(test="TestC08Conc", quick=400, thorough=4000, shards=4)],
         floors={"TestC08Strings:parser.valid": 0.1, "TestC08Strings:parser.malformed": 0.3, "TestC08Strings:parser.overlong": 0.03, "TestC08E2E:e2e.api": 0.1, "TestC08E2E:e2e.header.valid": 0.03, "TestC08E2E:e2e.api-expired.lt1ms": 0.03},
         assumptions=COMMON_ASSUMPTIONS + ["the timeout parser is reached through the verif-tagged export VerifParseGrpcTimeout (same function the server calls)"],
     ),
@@ -124,7 +124,7 @@ CHECKS = {
               "(a) bounded-exhaustive: every sequence of length<=2 (2970) plus a seeded 1/40 sample of length 3 in the quick tier; every sequence of length<=3 (160434) plus a 1/20 sample of length 4 in the thorough tier; (b) rapid sequences of length 1..40; each sequence is followed by a valid probe request on a fresh id, the bubble settles after every envelope. "
               "Oracle (invariants, not an exact model): process alive, Serve still running, probe answered exactly; unary handler runs == well-formed unary requests (requests without a body may or may not run it), every run answered exactly once with a well-formed swapped-address response, refusals only for undecodable requests; "
               "stream handler starts <= well-formed opens and >=1 if any; a body for a never-opened id is answered by a reset for that id; resets only with such a trigger; no envelope for an id never received. Non-trivial = sequence mixes malformed and well-formed envelopes or touches an id twice."),
-        jobs=[dict(test="TestC12Enum", kind="enum", quick=1, thorough=1), dict(test="TestC12", quick=3200, thorough=40000), dict(test="FuzzC12", kind="fuzz", quick=0, thorough=150)],
+        jobs=[dict(test="TestC12Enum", kind="enum", quick=1, thorough=1), dict(test="TestC12", quick=3200, thorough=40000), dict(test="FuzzC12", kind="fuzz", quick=0, thorough=150), dict(test="TestC12Reuse", quick=300, thorough=3000, shards=4)],
         assumptions=COMMON_ASSUMPTIONS,
         exhaustive_all=False,
     ),
@@ -167,20 +167,22 @@ CHECKS = {
               "Oracle model.Chain: server interceptors and handler each entered and exited exactly once per RPC, nested in registration order; the handler sees the composed request and metadata, the caller the reverse-composed reply or mapped error; "
               "per stats handler and RPC tag: Begin first, exactly one Begin and one End, End.Error==nil iff the RPC succeeded on that side, no event without the tag, TagRPC once per RPC (server side may see none for an RPC that never reached it); exactly one ConnBegin and ConnEnd per connection per handler. "
               "Non-trivial = chain length >=3, or a non-ok outcome, or >=2 stats handlers on a side."),
-        jobs=[dict(test="TestC20", quick=4800, thorough=30000), dict(test="FuzzC20", kind="fuzz", quick=0, thorough=90)],
+        jobs=[dict(test="TestC20", quick=4800, thorough=30000), dict(test="FuzzC20", kind="fuzz", quick=0, thorough=90), dict(test="TestC20Overlap", quick=400, thorough=4000, shards=4)],
         floors={"TestC20:outcome=cancel": 0.08, "TestC20:outcome=transport": 0.06, "TestC20:outcome=openfail": 0.05, "TestC20:chain=6": 0.08, "TestC20:single=true": 0.03, "TestC20:unread=true": 0.02},
         assumptions=COMMON_ASSUMPTIONS + ["a caller's cancellation of a unary call is not conveyed to the server by goat (no reset for unary calls); the harness releases such handlers itself"],
     ),
     "C16": dict(
         level="exploration",
-        rule=("three rapid sub-checks. envelopes: a proxy with 1..8 scripted clients and 1..4 scripted servers (some pre-attached, the rest dialled on demand, plus unknown names whose dial fails), an address-rewriting function from {none, alias->s0, alias->unknown, error for source c1}, "
+        rule=("four rapid sub-checks. envelopes: a proxy with 1..8 scripted clients and 1..4 scripted servers (some pre-attached, the rest dialled on demand, plus unknown names whose dial fails), an address-rewriting function from {none, alias->s0, alias->unknown, error for source c1}, "
               "1..40 envelopes with drawn source, destination (attached, dialable, unknown, alias), optional one/two-hop return route and prior route record, settled every 1..12 envelopes so that at most 12 are outstanding per destination. Oracle model.Proxy (independent routing model): "
               "every accepted envelope arrives exactly once at the modelled peer, per (source,destination) order preserved, body/id/metadata unchanged, own name appended to the route record exactly once, return route popped, nothing else delivered, drop counter 0. "
               "rpc: the C01-C04 generators (unary exactness, stream delivery, status fidelity, metadata) through 1..4 clients -> proxy -> Demux keyed by source -> one Serve per client, same oracles as on a direct connection. "
               "burst: 17..60 envelopes (or a server stream of that many messages) to one destination whose writes are parked: loss equal to the verif drop counter is the listed known finding proxy-drop; any other loss, duplicate or reordering is a violation. "
+              "attach: for 4..32 undiallable names a peer attaches (AddClient) from one goroutine at the very moment 1..3 envelopes for that name are written from another, with no quiescent point in between; the racing envelopes may be forwarded (in order) or refused, "
+              "but an envelope sent by the same or another client after both have completed must reach the attached connection exactly once. "
               "Non-trivial = >=2 sources to one destination, a dial-on-demand peer, a rewrite, >=2 proxy clients, or a burst."),
-        jobs=[dict(test="TestC16", quick=1600, thorough=20000), dict(test="TestC16RPC", quick=960, thorough=12000), dict(test="TestC16Burst", quick=64, thorough=1000, shards=4), dict(test="FuzzC16", kind="fuzz", quick=0, thorough=90)],
-        floors={"TestC16:dial_on_demand=true": 0.3, "TestC16:rewrite=alias": 0.1, "TestC16:late_dialable=true": 0.05, "TestC16Burst:burst.rpc=true": 0.2},
+        jobs=[dict(test="TestC16", quick=1600, thorough=20000), dict(test="TestC16RPC", quick=960, thorough=12000), dict(test="TestC16Burst", quick=64, thorough=1000, shards=4), dict(test="TestC16Attach", quick=1600, thorough=24000), dict(test="FuzzC16", kind="fuzz", quick=0, thorough=90)],
+        floors={"TestC16:dial_on_demand=true": 0.3, "TestC16:rewrite=alias": 0.1, "TestC16:late_dialable=true": 0.05, "TestC16Burst:burst.rpc=true": 0.2, "TestC16Attach:attach.sender=other": 0.3},
         assumptions=COMMON_ASSUMPTIONS + ["loss is attributed to buffer overflow through the verif-tagged counter at the proxy's drop site"],
     ),
     "C17": dict(
